@@ -795,7 +795,8 @@ def case_pam(ctx, chi, rng, k):
     n = int(rng.integers(2, 8))
     spec = gen_spec(rng, n, allow_pop=False)
     times = gen_times(rng)
-    model, pm, mech, _ = build(chi, spec, record=True)
+    dosed = bool(rng.random() < 0.35)
+    model, pm, mech, _ = build(chi, spec, record=True, dosed=dosed)
     names = model.get_parameter_names()
     base = spec['psi'] + spec['sig']
     n_models = int(rng.integers(2, 4))
@@ -811,25 +812,29 @@ def case_pam(ctx, chi, rng, k):
         posts.append(chi.PosteriorPredictiveModel(model, ds))
     weights = [float(x) for x in rng.uniform(0.2, 2.0, n_models)]
     pam = chi.PAMPredictiveModel(posts, weights)
+    if dosed:
+        pam.set_dosing_regimen(**REGIMEN)
     outputs = model.get_output_names()
-    ctx.case('PAMPredictiveModel/%d-models' % n_models, nontrivial='PAM/%d/%d' % (n_models, n),
-             sample={'case': k, 'spec': spec, 'weights': weights})
+    ctx.case('PAMPredictiveModel/%d-models%s' % (n_models, '/dosed' if dosed else ''),
+             nontrivial='PAM/%d/%d' % (n_models, n), sample={'case': k, 'spec': spec, 'weights': weights})
 
-    def one_call(individual, times, n, s, world, history):
+    def one_call(individual, times, n, s, world, history, include=False):
         """one call on the (same) averaged model and the same posterior predictive models, checked completely"""
         ind_idx = 0 if individual is None else ['a', 'b'].index(individual)
         inp = {'case': k, 'class': 'PAMPredictiveModel', 'spec': spec, 'times': times, 'n': n, 'seed': s,
-               'weights': weights, 'world': list(world), 'individual': individual,
-               'earlier_calls_on_this_object': history}
+               'weights': weights, 'world': list(world), 'individual': individual, 'dosed': dosed,
+               'include_regimen': include, 'earlier_calls_on_this_object': history}
         K.set_world(world)
         pm.seen = []
         box = K.ArgBox(times=times)
-        df = pam.sample(box['times'], n_samples=n, individual=individual, seed=s)
+        df = pam.sample(box['times'], n_samples=n, individual=individual, seed=s, include_regimen=include)
         box.check(ctx, 'C15.arguments_unchanged/PAMPredictiveModel', inp)
         outputs = model.get_output_names()
-        meas, _, _ = canon_rows(df, outputs)
+        meas, _, doses = canon_rows(df, outputs)
         ts = model_sorted_times(ctx, times)
         label_spec(ctx, 'C15.table_labels/PAMPredictiveModel', meas, n, outputs, times, inp, df)
+        dose_events_spec(ctx, 'C15.table_labels/PAMPredictiveModel.dose_events', doses,
+                         REGIMEN if dosed else None, times, include, inp)
         # which model every ID came from: psi0 of model m is near base + 10 m
         which = [int(round((v[0] / base[0] - 1.0) * base[0] / 10.0)) for v in pm.seen]
         which = [min(max(w, 0), n_models - 1) for w in which]
@@ -869,8 +874,9 @@ def case_pam(ctx, chi, rng, k):
     for call_no in range(1 + int(rng.integers(1, 3))):
         s = int(rng.integers(1 << 31))
         world = ('LS', int(rng.integers(1 << 30)), 0)
-        one_call(individual, times, n, s, world, list(history))
-        history.append({'individual': individual, 'n': n, 'times': times, 'seed': s})
+        include = bool(rng.random() < 0.6)
+        one_call(individual, times, n, s, world, list(history), include)
+        history.append({'individual': individual, 'n': n, 'times': times, 'seed': s, 'include_regimen': include})
         individual = 'b' if individual in (None, 'a') else [None, 'a'][int(rng.integers(2))]
         if rng.random() < 0.5:
             n = int(rng.integers(2, 8))
